@@ -144,15 +144,28 @@ struct Scn {
     }
 
     void resolver_body(const std::vector<std::string> &a, int tid) {
-        bool r;
+        bool r = false;
         if (a[1] == "value") {
             int v = atoi(a[2].c_str());
             if constexpr (std::is_void_v<T>) { auto sp = (*prom)(); r = sp; }
             else if constexpr (std::is_reference_v<T>) { ref_cells[tid] = v; auto sp = (*prom)(ref_cells[tid]); r = sp; }
+
             else { auto sp = (*prom)(P<T>::make(v)); r = sp; }
         } else if (a[1] == "exc") {
-            auto sp = (*prom)(std::make_exception_ptr(test_exc(atoi(a[2].c_str()))));
-            r = sp;
+            // every way the API accepts an exception is the same model step; which spelling is used depends on the code only
+            // (a named exception_ptr goes through overload resolution against the value-constructing set(Args&&...): used where
+            // the payload type would also accept it, so that a change of the overload set shows as behaviour, not as a compile error)
+            int code = atoi(a[2].c_str());
+            constexpr bool named_ok = std::is_void_v<T> || std::is_constructible_v<std::conditional_t<std::is_void_v<T>, int, std::remove_reference_t<T>>, std::exception_ptr &>;
+            int form = code % 5;
+            if (!named_ok && (form == 1 || form == 2)) form = 3;
+            switch (form) {
+                case 0: { auto sp = (*prom)(std::make_exception_ptr(test_exc(code))); r = sp; break; }
+                case 1: if constexpr (named_ok) { std::exception_ptr e = std::make_exception_ptr(test_exc(code)); auto sp = (*prom)(e); r = sp; } break;
+                case 2: if constexpr (named_ok) { const std::exception_ptr e = std::make_exception_ptr(test_exc(code)); auto sp = prom->set_value(e); r = sp; } break;
+                case 3: { std::exception_ptr e = std::make_exception_ptr(test_exc(code)); auto sp = prom->set_exception(e); r = sp; break; }
+                default: { try { throw test_exc(code); } catch (...) { r = prom->unhandled_exception(); } break; }
+            }
         } else if (a[1] == "throwv") {
             // the value's constructor throws inside set_value(): the call reports the exception, the future must not stay pending
             if constexpr (std::is_same_v<T, thrower>) {
